@@ -471,7 +471,7 @@ pub const PREFIXED: &[&str] = &["xsi:nil", "xsi:type", "xsi:schemaLocation", "xl
 
 pub const XMLNS: &[&str] = &["xmlns", "xmlns:p", "xmlns:q", "xmlns:xsi"];
 
-pub const CONCAT: &[&str] = &["Total", "Price", "TotalPrice", "total", "price", "total-price", "Totalprice", "P", "rice", "TotalP", "A", "B", "AB", "Ab"];
+pub const CONCAT: &[&str] = &["a_option", "AOption", "aOption", "b_vec", "BVec", "item_string", "ItemString", "a_self", "ASelf", "ListOption", "list_vec", "Total", "Price", "TotalPrice", "total", "price", "total-price", "Totalprice", "P", "rice", "TotalP", "A", "B", "AB", "Ab"];
 
 pub const SUFFIXY: &[&str] = &["text", "text_content", "text_content_1", "x", "x_attr", "x_1", "x_2", "x_attr_1", "a_1", "a1", "a-1", "b2", "Text", "TEXT", "text-content"];
 
@@ -493,6 +493,9 @@ pub enum Pool {
     Collide,
     /// large vocabulary: numbered names, very long names, a few from the other families
     Synthetic,
+    /// one identifier family with its generated-suffix look-alikes: foo / Foo / FOO next to foo_1,
+    /// foo_attr, foo_attr_1, foo_attr_2 ... (collisions between generated and literal suffixes)
+    SuffixClash,
 }
 
 const SYNTHETIC: &[&str] = &[
@@ -512,6 +515,9 @@ pub fn pool_names(pool: Pool, for_attrs: bool) -> Vec<&'static str> {
         Pool::Synthetic => {
             v.extend_from_slice(SYNTHETIC);
             v.extend_from_slice(PLAIN);
+        }
+        Pool::SuffixClash => {
+            v.extend_from_slice(&["foo", "Foo", "FOO", "fOO", "foo_1", "foo_2", "foo_attr", "foo_attr_1", "foo_attr_2", "foo_3", "text", "text_content", "Text", "text_content_1", "foo_attr_3"]);
         }
         Pool::Plain => v.extend_from_slice(PLAIN),
         Pool::Collide => {
